@@ -72,6 +72,11 @@ func init() {
 		}
 		return def
 	}
+	verifhook.Held = func(delta int) {
+		if s := kernel.Current; s != nil {
+			s.Held(delta)
+		}
+	}
 	verifhook.Yield = func(point string) {
 		if s := kernel.Current; s != nil {
 			s.Yield(kernel.KindLock, point, true)
